@@ -422,8 +422,26 @@ class World:
             if not self.can_attach_all(attach, p):
                 self.ctx.count("skipped:uuid-precondition")
                 return
+        # a batch one of whose elements cannot be a member at all (not a
+        # node, or a node of a kind without this back-pointer): the call
+        # fails, and what C16 asks is that nothing is left half-moved
+        bad = None
+        if op in ("update", "update2", "ior") and form == "plain" and \
+                objs and rnd.random() < 0.1:
+            bad = rnd.choice(["None", "int", "str"] + (
+                ["other-kind-node"] if ck[0] in "CD" else []))
+            junk = {"None": None, "int": 5, "str": "x"}.get(bad)
+            if bad == "other-kind-node":
+                pool = self.lids("PMSY")
+                if not pool:
+                    bad = None
+                else:
+                    junk = self.obj[rnd.choice(pool)]
+            if bad is not None:
+                objs = objs + [junk]
+                rnd.shuffle(objs)
         self.log(op="set." + op, parent=p, coll=coll, others=others,
-                 operand=form)
+                 operand=form, **({"bad_element": bad} if bad else {}))
         self.ctx.count("c16:set_operand:" + form)
         expect_exc = None
         ret = None
@@ -467,7 +485,8 @@ class World:
                 new = set(model)
             elif op == "update":
                 arg = operand if operand is not None else \
-                    rnd.choice([list, set, tuple, iter])(objs)
+                    rnd.choice([list, tuple, iter] if bad else
+                               [list, set, tuple, iter])(objs)
                 ret = S.update(arg)
                 new = model | set(others)
             elif op == "update2":
@@ -475,7 +494,8 @@ class World:
                 ret = S.update(objs[:k], set(objs[k:]))
                 new = model | set(others)
             elif op == "ior":
-                S |= (operand if operand is not None else set(objs))
+                S |= (operand if operand is not None else (
+                    objs if bad else set(objs)))
                 new = model | set(others)
             elif op == "isub":
                 S -= (operand if operand is not None else set(objs))
@@ -491,6 +511,20 @@ class World:
         tag = "set.%s:%s" % (op, relname)
         if form != "plain":
             tag += ":operand-" + form
+        if bad is not None:
+            tag += ":unusable-element"
+            self.ctx.count("c16:set_batch_with_unusable_element")
+            if exc is None:
+                self.fail("C16", "%s:accepted" % tag,
+                          "%s accepted %s as a member" % (tag, bad))
+            # like the built-in's, the batch may have been applied up to
+            # the offending element: the model follows what the collection
+            # now holds, and the world check that follows decides whether
+            # every element is wholly in or wholly out
+            self.ctx.count("c16:set_batch_with_unusable_element_raising")
+            new = {x for x in model | set(others) if self.obj[x] in S}
+            exc = None
+            ret = None
         if exc is not None:
             if expect_exc is None or not isinstance(exc, expect_exc):
                 self.fail("C16", "%s:raises:%s" % (tag, type(exc).__name__),
